@@ -62,15 +62,19 @@ def translate(repo):
     hist_active = '!BIT_HAS(USCXML_GET_STATE(i).parent, ctx->config)) {' in text
     tlf_byte = 'USCXML_GET_STATE(i).ancestors[0] == 0x01' in text
     m = re.search(r'void ChartToC::setHistoryCompletion\(\)\s*\{(.*?)\n\}', src, flags=re.S)
-    cover_outer = not (m and re.search(r'histories\.reverse\(\)', m.group(1)))
+    if not m:
+        raise ValueError('ChartToC::setHistoryCompletion not found')
+    covering = bool(re.search(r'isMember\(state,\s*covered\)', m.group(1)))
+    cover_outer = covering and not re.search(r'histories\.reverse\(\)', m.group(1))
+    cover_mode = 0 if not covering else (1 if cover_outer else 2)
     exit_cleared = bool(re.search(r'bit_clear_all\(target_set, nr_states_bytes\);\s*\n\s*bit_clear_all\(exit_set, nr_states_bytes\);', text))
     meta = {'macros': {k: vals[k] for k in KINDS + TRANS + CTX + ERR}, 'mask': int(mask.group(1), 0), 'sizing_float': sizing_float,
-            'cg_source': {'history_of_active_parent': hist_active, 'top_level_final_first_byte': tlf_byte, 'history_cover_outer_first': cover_outer},
+            'cg_source': {'history_of_active_parent': hist_active, 'top_level_final_first_byte': tlf_byte, 'history_cover_outer_first': cover_outer}, 'history_cover_mode': cover_mode,
             'exit_set_cleared_before_first_use': exit_cleared}
-    return render(vals, int(mask.group(1), 0), sizing_float, hist_active, tlf_byte, cover_outer, exit_cleared, 'source read successfully'), meta
+    return render(vals, int(mask.group(1), 0), sizing_float, hist_active, tlf_byte, cover_outer, exit_cleared, 'source read successfully', cover_mode), meta
 
 
-def render(vals, mask, sizing_float, hist_active, tlf_byte, cover_outer, exit_cleared, note):
+def render(vals, mask, sizing_float, hist_active, tlf_byte, cover_outer, exit_cleared, note, cover_mode=1):
     b = lambda x: 'true' if x else 'false'
     L = ['(* GenCGen.v -- GENERATED by tools/translate/tr_cgen.py from src/uscxml/transform/ChartToC.cpp.  Do not edit. *)',
          '(* %s *)' % note,
@@ -90,6 +94,8 @@ def render(vals, mask, sizing_float, hist_active, tlf_byte, cover_outer, exit_cl
     L.append('Definition cg_src_hist_active_parent : bool := %s.' % b(hist_active))
     L.append('Definition cg_src_tlf_first_byte : bool := %s.' % b(tlf_byte))
     L.append('Definition cg_src_cover_outer_first : bool := %s.' % b(cover_outer))
+    L.append('(* setHistoryCompletion: 0 = no covering, 1 = covering with outer histories first, 2 = covering with inner histories first *)')
+    L.append('Definition cg_src_cover_mode : N := %d.' % cover_mode)
     L.append('Definition cg_src_exit_set_cleared : bool := %s.' % b(exit_cleared))
     L.append('')
     return '\n'.join(L)
